@@ -22,13 +22,13 @@ from .model import TreeModel
 from .snapshot import ustr
 
 MUTATING = {"mk_group", "mk_object", "add_data", "add_comment", "add_file", "set_values", "rename", "set_flag",
-            "set_meta", "move", "copy", "rm_ws", "rm_parent", "pg_add", "pg_rm", "pg_del", "mk_dup", "pg_new", "move_data", "copy_extent", "type_edit"}
+            "set_meta", "move", "copy", "rm_ws", "rm_parent", "pg_add", "pg_rm", "pg_del", "mk_dup", "pg_new", "move_data", "copy_extent", "type_edit", "hole_attr"}
 SCHEDULE = {"gc", "drop", "close_reopen", "reopen_same", "save_as", "list", "lookup", "observe", "tidy"}
 
 BASE_WEIGHTS = {
     "mk_group": 6, "mk_object": 10, "add_data": 12, "add_comment": 2, "add_file": 1, "set_values": 5,
     "rename": 4, "set_flag": 3, "set_meta": 3, "move": 5, "copy": 6, "rm_ws": 5, "rm_parent": 4,
-    "pg_add": 4, "pg_rm": 2, "pg_del": 1, "pg_new": 2, "mk_dup": 0, "move_data": 3, "copy_extent": 2, "type_edit": 2,
+    "pg_add": 4, "pg_rm": 2, "pg_del": 1, "pg_new": 2, "mk_dup": 0, "move_data": 3, "copy_extent": 2, "type_edit": 2, "hole_attr": 0,
     "gc": 5, "drop": 3, "close_reopen": 4, "reopen_same": 2, "save_as": 1, "list": 3, "lookup": 3, "observe": 2,
 }
 PROFILES = {
@@ -1199,6 +1199,40 @@ class World:
         del ent, dtype
         self.sim.probe("type_edit_" + what)
         return outcome
+
+    def gen_hole_attr(self, rng, h):
+        t = self.target(rng, h, "object", lambda r: r.get("concat"))
+        if t is None:
+            return None
+        attr = rng.choice(["name", "visible", "public", "allow_rename", "cost"])
+        val = {"name": build.name(rng), "visible": rng.random() < 0.5, "public": rng.random() < 0.5, "allow_rename": rng.random() < 0.5, "cost": rng.randrange(1, 50) / 2.0}[attr]
+        return {"t": t, "attr": attr, "val": val}
+
+    def do_hole_attr(self, op):
+        """Assign a scalar attribute of a concatenated drillhole (its record is written when the workspace closes)."""
+        h = op["h"]
+        model = self.h[h].model
+        uid = self.resolve(h, op["t"], lambda r: r.get("concat"))
+        if uid is None:
+            return "skipped"
+        self.touch(h, uid)
+        ent = self.ent(h, uid)
+
+        def assign():
+            setattr(ent, op["attr"], op["val"])
+
+        _, outcome = self.call(assign, what="hole_attr " + op["attr"])
+        del ent
+        if outcome != "ok":
+            return outcome
+        rec = model.recs[uid]
+        if op["attr"] == "name":
+            rec["name"] = op["val"]
+        elif op["attr"] == "cost":
+            rec["attrs"]["Cost"] = op["val"]
+        else:
+            rec["flags"][op["attr"]] = int(op["val"])
+        return "ok"
 
     # ---- identifier reuse (C06) --------------------------------------------------------------
     def gen_mk_dup(self, rng, h):
